@@ -221,6 +221,20 @@ func init() {
 			b2 := s.makeBlock(b1, "", all)
 			s.deliverAll(a1, b1, b2)
 		}},
+		{name: "failed-reorg-at-genesis", opts: tn, run: func(s *scen) {
+			// a reorganisation whose common block is the genesis node fails (b1 invalid once connected): the fall-back
+			// MoveToBlock(a1) starts from the genesis tip; its first loop climbs from a1 to the genesis node (TxCount 0)
+			all := map[outpoint]rCoin{}
+			g := s.blocks[0]
+			a1 := s.makeBlock(g, "", all)
+			b1 := s.makeBlock(g, "cb-overpay", all)
+			b2 := s.makeBlock(b1, "", all)
+			if eval(b1); b1.valid {
+				s.tieFail("corpus-setup", "b1 was meant to be invalid")
+				return
+			}
+			s.deliverAll(a1, b1, b2)
+		}},
 		{name: "partial-spend-and-in-block-chain-undo", opts: tn, run: func(s *scen) {
 			tip := s.base(106)
 			all := allCoins(s)
